@@ -1,39 +1,62 @@
 #!/usr/bin/env python3
-"""tools/c03_switch.py snapshot|repaired [commit]
+"""tools/c03_switch.py [batch|getters|inputs|containers] snapshot|repaired [commit]
 
-Keeps the two hand-maintained places of the C03 check consistent with the tree in /repo:
-  snapshot   the batch mutators of /repo are plain folds (the state before fixes/C03-batch-edits-atomic.diff):
-             coq/edit/ExpectedFacts.v expects BatchFold and the partial application of rejected batch edits is the
-             recorded finding C03-batch-partial-application (KNOWN-FINDING, exit 0);
-  repaired   the diff is applied (`fix:` commit <commit>): ExpectedFacts.v expects BatchValidated and the defect is
-             listed under "fixed" (it suppresses nothing: a reappearance is a VIOLATION).
+Keeps the hand-maintained places of the C03 check consistent with the tree in /repo.  Two independent switches:
+
+  batch (default when the first argument is snapshot|repaired; fixes/C03-batch-edits-atomic.diff, applied as 037a1c8)
+    snapshot   the batch mutators of /repo are plain folds: coq/edit/ExpectedFacts.v expects BatchFold and the partial
+               application of rejected batch edits is the recorded finding C03-batch-partial-application;
+    repaired   ExpectedFacts.v expects BatchValidated and the defect is listed under "fixed".
+
+  getters / inputs / containers (= both)   (fixes/C03-containers-are-values.diff; its getter half is also
+  fixes/C13-query-results-are-copies.diff, its other half alone fixes/C03-mutators-copy-containers.diff)
+    snapshot   get_initial_conditions / get_parameter_values return the cache's own dicts and the mutators keep the caller's
+               args= / outputs= / stoichiometries= objects: ExpectedFacts.v expects C03_expected_getters / C03_expected_inputs := Aliased and the
+               two recorded findings C03-query-results-alias-cache, C03-mutators-keep-caller-lists (KNOWN-FINDING, exit 0);
+    repaired   the diff is applied (`fix:` commit <commit>): ExpectedFacts.v expects Copied, both defects are listed under
+               "fixed" (they suppress nothing: a reappearance is a VIOLATION).
+
 Then runs tools/mkmanifest.py (idempotent merge of known_findings.d / manifest_src.d)."""
 import json, re, subprocess, sys
 from pathlib import Path
 
 V = Path(__file__).resolve().parent.parent
-mode = sys.argv[1] if len(sys.argv) > 1 else ""
+args = sys.argv[1:]
+which = "batch"
+if args and args[0] in ("batch", "getters", "inputs", "containers"):
+    which, args = args[0], args[1:]
+mode = args[0] if args else ""
 if mode not in ("snapshot", "repaired"):
     sys.exit(__doc__)
-commit = sys.argv[2] if len(sys.argv) > 2 else "<commit-to-be-filled>"
+commit = args[1] if len(args) > 1 else "<commit-to-be-filled>"
 src = json.loads((V / "harness/c03_findings.json").read_text())
+if which != "batch":
+    src = dict(src["containers"])
+    keep = {"getters": ["C03-query-results-alias-cache"], "inputs": ["C03-mutators-keep-caller-lists"]}.get(which)
+    if keep is not None:
+        src["findings"] = [f for f in src["findings"] if f["id"] in keep]
+    lines = [f"C03_expected_{w} : alias_mode" for w in (("getters", "inputs") if which == "containers" else (which,))]
+    want = "Aliased" if mode == "snapshot" else "Copied"
+else:
+    lines, want = ["C03_expected_batch : batch_mode"], ("BatchFold" if mode == "snapshot" else "BatchValidated")
 ef = V / "coq/edit/ExpectedFacts.v"
 text = ef.read_text()
-want = "BatchFold" if mode == "snapshot" else "BatchValidated"
-new = re.sub(r"(Definition C03_expected_batch : batch_mode := )\w+\.", rf"\g<1>{want}.", text)
+new = text
+for line in lines:
+    new = re.sub(rf"(Definition {re.escape(line)} := )\w+\.", rf"\g<1>{want}.", new)
 if new != text:
     ef.write_text(new)
 kfp = V / "known_findings.d/C03.json"
 kf = json.loads(kfp.read_text())
-tag = "(id C03-batch-partial-application;"
-kf["fixed"] = [x for x in kf.get("fixed", []) if tag not in x]
+ids = [f["id"] for f in src["findings"]]
+kf["fixed"] = [x for x in kf.get("fixed", []) if not any(f"(id {i};" in x for i in ids)]
+kf["findings"] = [f for f in kf.get("findings", []) if f.get("id") not in ids]
 if mode == "snapshot":
-    kf["findings"] = src["findings"]
+    kf["findings"] += src["findings"]
 else:
-    kf["findings"] = []
     kf["fixed"] += [
         f"fixed: property=C03 {commit} {src['fixed_text'][f['id']]} (id {f['id']}; demo: {src['demo']}; fix: {src['fix']})"
         for f in src["findings"]]
 kfp.write_text(json.dumps(kf, indent=1) + "\n")
 subprocess.run([sys.executable, str(V / "tools/mkmanifest.py")], check=True)
-print(f"C03 check now expects the {mode} batch mutators ({want})")
+print(f"C03 check now expects the {mode} {which} form ({want})")
